@@ -52,8 +52,9 @@ type frEnvT struct {
 	readErr, parseErr, generated, formatErr, parses, writeErr []frTri
 	match, replaceErr                                          [][]frTri
 
-	effects []frEffect
-	cur     int // file currently processed (set by ReadFile)
+	effects    []frEffect
+	cur        int // file currently processed (set by ReadFile)
+	apiChanges []*engine.Change
 }
 
 var frEnv *frEnvT
@@ -126,7 +127,15 @@ func (e *frEnvT) changeIndex(c *engine.Change) int {
 			return i
 		}
 	}
-	return -1
+	// changes of a patch.File built by the harness for the API run: the
+	// k-th distinct one stands for change k of the same environment.
+	for i, x := range e.apiChanges {
+		if x == c {
+			return i
+		}
+	}
+	e.apiChanges = append(e.apiChanges, c)
+	return len(e.apiChanges) - 1
 }
 
 func (e *frEnvT) log(fx frEffect) { e.effects = append(e.effects, fx) }
@@ -163,6 +172,10 @@ func StubFRReadFile(name string) ([]byte, error) {
 func StubFRParseFile(fset *token.FileSet, filename string, src any, mode parser.Mode) (*ast.File, error) {
 	e := frEnv
 	i := e.fileByName(filename)
+	if i < 0 {
+		// not a target file (e.g. a pattern parsed while loading a patch): the real parser
+		return parser.ParseFile(fset, filename, src, mode)
+	}
 	b, _ := src.([]byte)
 	if i >= 0 && len(b) > 0 && b[0] != 'O' {
 		// gopatch re-parses something it produced: honour the ghost bit
@@ -241,7 +254,7 @@ func frParses(i int) bool {
 func StubFRProcess(filename string, src []byte, opt *imports.Options) ([]byte, error) {
 	e := frEnv
 	i := e.fileByName(filename)
-	e.log(frEffect{kind: "process", file: i})
+	e.log(frEffect{kind: "process", file: i, name: fmt.Sprintf("%v/%v/%v/%v", opt.Comments, opt.TabIndent, opt.TabWidth, opt.FormatOnly)})
 	if !frParses(i) {
 		return nil, errors.New(filename + ":1:1: expected declaration")
 	}
@@ -332,4 +345,35 @@ func (e *frEnvT) effectsFor(i int, kinds ...string) []frEffect {
 		}
 	}
 	return out
+}
+
+// frAssertOwnBytes: whatever is emitted for file i (written, printed,
+// diffed) is a function of file i alone: its own new bytes (after import
+// processing unless skipped) or, for an echo, its own original bytes; and a
+// file is emitted at most once per sink.
+func frAssertOwnBytes(e *frEnvT) {
+	for i := 0; i < e.nfiles; i++ {
+		want := e.newBytes[i]
+		if !e.opts.SkipImportProcessing {
+			want = append([]byte{'I'}, want...)
+		}
+		n := 0
+		for _, fx := range e.effects {
+			if fx.file != i {
+				continue
+			}
+			switch fx.kind {
+			case "write", "diff":
+				n++
+				nd.Assert(frBytesEq(fx.data, want), fmt.Sprintf("file %d: emitted bytes are not this file's own result (another file's processing leaked in)", i))
+				if fx.kind == "diff" {
+					nd.Assert(frBytesEq(fx.orig, e.content[i]), fmt.Sprintf("file %d: diff is not against this file's original bytes", i))
+				}
+			case "stdout":
+				n++
+				nd.Assert(nd.Or(frBytesEq(fx.data, want), frBytesEq(fx.data, e.content[i])), fmt.Sprintf("file %d: printed bytes are neither this file's result nor its original bytes", i))
+			}
+		}
+		nd.Assert(n <= 1, fmt.Sprintf("file %d: emitted more than once", i))
+	}
 }
